@@ -19,7 +19,13 @@
 
    Named deviations of the code from the candidate statements:
      - the message's SOURCE is not excluded when forwarding (go-libp2p excludes it); harmless because of recv;
-     - dedup is on the whole message, not on (source, seqno);
+     - dedup is on the whole message, not on (source, seqno): a look-alike with the same source and sequence number
+       but other data is delivered as a second message (the pubsub specification identifies messages by from + seqno);
+     - ReannounceOnAddNode: add_node_to_partial_view for a connected peer re-sends ALL current topics, also those the
+       peer already got through subscribe(); the receiver's view is idempotent but its application sees
+       Event::Subscribed again (so Subscribed is "at least once", not "exactly once", per peer and topic);
+     - announcements (subscribe / unsubscribe) go to every CONNECTED peer, messages only to connected peers of the
+       partial view;
      - RememberOwn = FALSE is the code before the fix in /repo: publish_many_inner remembered the published message
        only if the publisher was subscribed to one of its topics, so after publish_any + a later subscribe the message
        came back, was delivered to the publisher's own application and was flooded a second time
